@@ -51,6 +51,8 @@ def cmd_explore(a):
             finally:
                 faulthandler.cancel_dump_traceback_later()
             agg["runs"] += 1
+            if rr.slowest[0] > agg.get("slowest", (0,))[0]:
+                agg["slowest"] = (round(rr.slowest[0], 1), seed, rr.slowest[1], rr.slowest[2], g_ops(rec))
             agg["steps"] += rr.steps
             agg["checked"] += rr.checked
             agg["twin_steps"] += rec.get("twin_steps", 0)
@@ -94,8 +96,16 @@ def cmd_explore(a):
             "interleavings": len(agg["interleavings"]),
             "interleaving_hashes": sorted(hash_s(x) for x in agg["interleavings"]),
             "shapes": sorted(agg["shapes"]),
+            "slowest": agg.get("slowest"),
         }
         f.write(json.dumps(summ) + "\n")
+
+
+def g_ops(rec):
+    try:
+        return rec["cfg"]["ops"]
+    except Exception:
+        return None
 
 
 def cmd_replay(a):
